@@ -376,6 +376,7 @@ theorem ub_ok (c : UBCfg) (hh : HasherOk c.hasher) (s : UB) (r : Rec) (n : Int) 
 def KindOk : PKind → Prop
   | .stickyKey h => HasherOk h
   | .uniformBytes c => HasherOk c.hasher
+  | .basic f => ∀ r n, 1 ≤ n → n ≤ 2147483647 → ∃ p, f r n = some p ∧ 0 ≤ p ∧ p < n
   | _ => True
 
 /-- State invariant: the pinned partition is `-1` ("none") or non-negative; it may be ≥ the next `n`. -/
@@ -385,6 +386,7 @@ def Inv : PKind → PState → Prop
   | .stickyKey _, .st s => -1 ≤ s.onPart
   | .leastBackup, .lb s => -1 ≤ s.onPart
   | .uniformBytes _, .ub _ => True
+  | .basic _, .unit => True
   | _, _ => False
 
 /-- What `doPartition` guarantees about a call: `1 ≤ n ≤ 2^31-1` (partition counts are int32 on the wire),
@@ -432,6 +434,10 @@ theorem part_ok (k : PKind) (s : PState) (r : Rec) (n : Int) (mapping : List Int
     obtain ⟨hl, _⟩ := hb rfl
     obtain ⟨s', p, e, h0, h1⟩ := ub_ok c hk s r n mapping (draws.headD 0) hn hn2 hl
     exact ⟨.ub s', p, by simp only [PKind.partitionN, e], trivial, h0, h1⟩
+  | basic f =>
+    cases s <;> simp only [Inv] at hs
+    obtain ⟨p, e, h0, h1⟩ := hk r n hn hn2
+    exact ⟨.unit, p, by simp only [PKind.partitionN, e], trivial, h0, h1⟩
 
 /-- the hasher consulted for keyed records (`none` for partitioners without key logic). -/
 def kindHasher : PKind → Hasher
@@ -457,6 +463,7 @@ theorem part_keyed (k : PKind) (s s' : PState) (r : Rec) (n p : Int) (it : Iter)
   | roundRobin => simp [PKind.obsKey] at hkey
   | sticky => simp [PKind.obsKey] at hkey
   | leastBackup => simp [PKind.obsKey] at hkey
+  | basic f => simp [PKind.obsKey] at hkey
   | stickyKey h =>
     simp only [PKind.obsKey] at hkey
     cases s with
@@ -469,6 +476,7 @@ theorem part_keyed (k : PKind) (s s' : PState) (r : Rec) (n p : Int) (it : Iter)
     | rr _ => simp [PKind.partitionN] at e
     | lb _ => simp [PKind.partitionN] at e
     | ub _ => simp [PKind.partitionN] at e
+    | unit => simp [PKind.partitionN] at e
   | uniformBytes c =>
     simp only [PKind.obsKey] at hkey
     cases s with
@@ -481,6 +489,7 @@ theorem part_keyed (k : PKind) (s s' : PState) (r : Rec) (n p : Int) (it : Iter)
     | rr _ => simp [PKind.partitionN] at e
     | lb _ => simp [PKind.partitionN] at e
     | st _ => simp [PKind.partitionN] at e
+    | unit => simp [PKind.partitionN] at e
 
 def toObs (t : Option (List UInt8) × Int × Int) : Obs := ⟨t.1, t.2.1, t.2.2⟩
 
